@@ -18,7 +18,7 @@ SPEC = {
     "must_reach": ["PyMatterSim.static.pairentropy:s2_integral", "PyMatterSim.static.pairentropy:S2.particle_s2",
                    "PyMatterSim.static.geometric:q8_tetrahedral", "PyMatterSim.static.nematic:NematicOrder.tensor",
                    "PyMatterSim.static.shape:gyration_tensor"],
-    "floors": {"nematic_second_call": 100, "s2": 500, "s2_gr": 500, "s2_sparse_cases": 8, "tetrahedral": 500, "tetrahedral_N5_cases": 5, "diamond": 16,
+    "floors": {"tetrahedral_sheared_trajectories": 5, "nematic_second_call": 100, "s2": 500, "s2_gr": 500, "s2_sparse_cases": 8, "tetrahedral": 500, "tetrahedral_N5_cases": 5, "diamond": 16,
                "tetra_nonneighbour": 30, "nematic_tensor": 300, "nematic_scalar": 300, "nematic_eig_equals_trace": 300,
                "gyration": 300, "gyration_2d_cases": 30},
     "rule": ("S2: {2D,3D} x K 1..2 x width matrices x (rdelta, ndelta) x masks x {dense, sparse} x {orthogonal, triclinic}; "
@@ -198,10 +198,14 @@ def case_tetra(ctx, rng, wd, n5=False, diamond=False):
         ppp = gc.random_mask(rng, 3)
     N = len(frac)
     frames = 1 if diamond else int(rng.choice([1, 2]))
-    snaps = gc.snapshots_from([gc.snapshot_from(cell, (frac + (rng.normal(0, 0.02, frac.shape) if t else 0)) % 1.0, np.ones(N, dtype=int), t) for t in range(frames)])
+    # sheared trajectories (equal edge lengths, an own tilt per frame): every frame has its own cell matrix
+    tcells = [cell] + [gc.retilt(rng, cell) if (cell["kind"].startswith("tri") and rng.random() < 0.6) else cell for _ in range(frames - 1)]
+    if any(c is not cell for c in tcells):
+        ctx.count("tetrahedral_sheared_trajectories")
+    snaps = gc.snapshots_from([gc.snapshot_from(tcells[t], (frac + (rng.normal(0, 0.02, frac.shape) if t else 0)) % 1.0, np.ones(N, dtype=int), t) for t in range(frames)])
     if not diamond:
-        gc.unwrap_in_place(rng, snaps.snapshots, cell["H"], ppp)       # unwrapped coordinates
-    info = lambda: {"N": N, "H": cell["H"], "ppp": ppp, "diamond": diamond, "positions": snaps.snapshots[0].positions if N <= 16 else "omitted"}  # noqa: E731
+        gc.unwrap_in_place(rng, snaps.snapshots, [c["H"] for c in tcells], ppp)       # unwrapped coordinates
+    info = lambda: {"N": N, "H": [c["H"] for c in tcells], "ppp": ppp, "diamond": diamond, "positions": snaps.snapshots[0].positions if N <= 16 else "omitted"}  # noqa: E731
     key = "q8_tetrahedral" + ("/N==5" if N == 5 else "")
     out = "tet.npy" if rng.random() < 0.2 else ""
     ok, res = ctx.call(key, q8_tetrahedral, snaps, ppp, out, data=info)
@@ -214,9 +218,9 @@ def case_tetra(ctx, rng, wd, n5=False, diamond=False):
     res = np.asarray(res)
     if not ctx.check("tetrahedral", res.shape == (frames, N), key + "/shape", f"shape {res.shape}", info):
         return
-    ra = geom.agreement_radius(cell["H"], ppp)
+    ra = min(geom.agreement_radius(c["H"], ppp) for c in tcells)
     for t, s in enumerate(snaps.snapshots):
-        exp, tie, nn, dist = tetra_ref(s.positions, cell["H"], ppp)
+        exp, tie, nn, dist = tetra_ref(s.positions, tcells[t]["H"], ppp)
         far = np.array([max(dist[i, j] for j in nn[i]) >= ra for i in range(N)])
         use = ~tie & ~far
         ctx.skip("tetrahedral", int((~use).sum()))
